@@ -5200,12 +5200,24 @@ int32_t matrixSslEncodeClientHello(ssl_t *ssl, sslBuf_t *out,
     {
         cipherLen += 2; /* signalling cipher id 0x00FF */
         addRenegotiationScsv = 1;
-        if (cipherSpecLen > 0)
+    }
+#  endif
+    /* Remember which ciphersuites this ClientHello offers: the server's
+       choice is checked against them (parseServerHello) and the list is
+       re-sent during possible server-initiated renegotiations. */
+    if (cipherSpecs != ssl->tlsClientCipherSuites)
+    {
+        psFree(ssl->tlsClientCipherSuites, ssl->hsPool);
+        ssl->tlsClientCipherSuites = NULL;
+        ssl->tlsClientCipherSuitesLen = 0;
+        if (cipherSpecLen > 0 && cipherSpecs != NULL && cipherSpecs[0] != 0)
         {
-            /* Store the initial ClientHello cipherlist for re-sending during
-               possible server-initiated renegotiations. */
             ssl->tlsClientCipherSuites = psMalloc(ssl->hsPool,
-                    2*cipherSpecLen);
+                    cipherSpecLen * sizeof(*ssl->tlsClientCipherSuites));
+            if (ssl->tlsClientCipherSuites == NULL)
+            {
+                return SSL_MEM_ERROR;
+            }
             for (i = 0; i < cipherSpecLen; i++)
             {
                 ssl->tlsClientCipherSuites[i] = cipherSpecs[i];
@@ -5213,7 +5225,6 @@ int32_t matrixSslEncodeClientHello(ssl_t *ssl, sslBuf_t *out,
             ssl->tlsClientCipherSuitesLen = cipherSpecLen;
         }
     }
-#  endif
     if (options->fallbackScsv)
     {
         if (ACTV_VER(ssl, psVerGetHighestTls(v_compiled_in)))
